@@ -114,6 +114,11 @@ def build_state(case):
             continue
         p, w = pool_worker(r["pool"], r["worker"])
         s = strategy_of(t, r["strategy"])
+        from copy import deepcopy as _dc
+
+        if not _dc(w).can_accomodate_strategy(s):
+            notes["skipped"].append(("scheduled_nofit", r["graph"], r["job"]))
+            continue
         at = now + r.get("at", 1)
         pl = Placement.create_task_placement(task=t, placement_time=T(at), worker_pool_id=p.id, worker_id=w.id if r.get("with_worker_id", True) else None, execution_strategy=s)
         t.schedule(T(now), pl)
